@@ -70,6 +70,14 @@ func GenHBurst(t *rapid.T) HCase {
 		c.Plugins = append(c.Plugins[:pos], append([]PluginSpec{{Name: name, Args: args}}, c.Plugins[pos:]...)...)
 	}
 	c.Burst = rapid.IntRange(2, 6).Draw(t, "burst")
+	if rapid.Bool().Draw(t, "autorefresh") {
+		// the static lease file is watched, and rewritten while the burst is handled
+		for i := range c.Plugins {
+			if c.Plugins[i].Name == "file" && len(c.Plugins[i].Args) == 1 {
+				c.Plugins[i].Args = append(append([]string(nil), c.Plugins[i].Args...), "autorefresh")
+			}
+		}
+	}
 	return c
 }
 
@@ -329,6 +337,10 @@ func ExecH(c HCase) (res core.Result) {
 	}
 	ci, err := buildChain(c.V6, c.Plugins)
 	if err != nil {
+		if strings.Contains(err.Error(), "watcher") || strings.Contains(err.Error(), "too many open files") || strings.Contains(err.Error(), "inotify") {
+			res.Skipped = "inotify-limit"
+			return
+		}
 		res.Viol = core.Violate(prop+"/harness-chain-setup", "chain of valid plugins rejected: %v", err)
 		return
 	}
@@ -495,47 +507,79 @@ func ExecH(c HCase) (res core.Result) {
 	burst := false
 	if c.Burst > 0 && !c.NilStop && !c.Verify && !c.Check14 && len(c.History) > 0 {
 		burst = true
-		var wg sync.WaitGroup
 		var mu sync.Mutex
 		var first *core.Violation
 		abort := make(chan struct{})
 		var once sync.Once
-		start := make(chan struct{})
-		for r := 0; r < c.Burst; r++ {
-			for i, d := range c.History {
-				b, _ := hex.DecodeString(d.Hex)
-				dd := Dgram{Hex: hex.EncodeToString(otherClient(b, c.V6, r*len(c.History)+i+1)), Src: d.Src}
-				wg.Add(1)
-				go func(dd Dgram, idx int) {
-					defer wg.Done()
-					<-start
-					if v := feed(dd, idx); v != nil && v.Signature != "skip:cpu-starved" {
-						mu.Lock()
-						if first == nil {
-							first = v
-						}
-						mu.Unlock()
-						once.Do(func() { close(abort) })
+		// a watched lease file is rewritten in place (same content) for as long as the burst
+		// lasts, and the burst is then repeated in waves for 40 ms
+		stopW := make(chan struct{})
+		var wwg sync.WaitGroup
+		if len(ci.refresh) > 0 {
+			wwg.Add(1)
+			go func() {
+				defer wwg.Done()
+				for {
+					select {
+					case <-stopW:
+						return
+					default:
 					}
-				}(dd, i)
-			}
+					for _, f := range ci.refresh {
+						text := lease4Text
+						if c.V6 {
+							text = lease6Text
+						}
+						writeAt(f, text)
+					}
+					time.Sleep(100 * time.Microsecond)
+				}
+			}()
 		}
-		close(start)
-		if !core.WaitTimeout(&wg, abort, 60*time.Second) {
+		defer func() { close(stopW); wwg.Wait() }()
+		until := time.Now().Add(40 * time.Millisecond)
+		for wave := 0; ; wave++ {
+			var wg sync.WaitGroup
+			start := make(chan struct{})
+			for r := 0; r < c.Burst; r++ {
+				for i, d := range c.History {
+					b, _ := hex.DecodeString(d.Hex)
+					dd := Dgram{Hex: hex.EncodeToString(otherClient(b, c.V6, (wave*c.Burst+r)*len(c.History)+i+1)), Src: d.Src}
+					wg.Add(1)
+					go func(dd Dgram, idx int) {
+						defer wg.Done()
+						<-start
+						if v := feed(dd, idx); v != nil && v.Signature != "skip:cpu-starved" {
+							mu.Lock()
+							if first == nil {
+								first = v
+							}
+							mu.Unlock()
+							once.Do(func() { close(abort) })
+						}
+					}(dd, i)
+				}
+			}
+			close(start)
+			finished := core.WaitTimeout(&wg, abort, 60*time.Second)
 			mu.Lock()
 			v := first
 			mu.Unlock()
-			if v == nil {
+			if !finished && v == nil {
 				v = core.Violate("C01/wedged", "a burst of %d x %d datagrams handled concurrently did not finish within 60 s", c.Burst, len(c.History))
 			}
-			v.Message = fmt.Sprintf("burst (%d copies of the history at once, one goroutine per datagram): %s", c.Burst, v.Message)
-			res.Viol = v
-			return
-		}
-		if first != nil {
-			first.Message = fmt.Sprintf("burst (%d copies of the history at once, one goroutine per datagram): %s", c.Burst, first.Message)
-			res.Viol = first
-			return
+			if v != nil {
+				what := ""
+				if len(ci.refresh) > 0 {
+					what = ", while the watched lease file is being rewritten"
+				}
+				v.Message = fmt.Sprintf("burst (%d copies of the history at once, one goroutine per datagram%s): %s", c.Burst, what, v.Message)
+				res.Viol = v
+				return
+			}
+			if len(ci.refresh) == 0 || time.Now().After(until) || wave >= 300 {
+				break
+			}
 		}
 	}
 	// canary: a fresh, well-formed request must still be handled (no lock left behind)
@@ -595,6 +639,9 @@ func ExecH(c HCase) (res core.Result) {
 	}
 	if burst {
 		res.Classes = append(res.Classes, "burst")
+		if len(ci.refresh) > 0 {
+			res.Classes = append(res.Classes, "burst-with-lease-file-rewrites")
+		}
 	}
 	return
 }
